@@ -948,9 +948,7 @@ class WaveSpectrum(DatasetWrapper):
         coordinates: Dict[str, Union[xarray.DataArray, np.ndarray]],
         extrapolation_value: float = 0.0,
     ):
-        dataset = self.__class__(
-            xarray.Dataset(interpolate_dataset_grid(coordinates, self.dataset))
-        )
+        dataset = self.__class__(interpolate_dataset_grid(coordinates, self.dataset))
         dataset.fillna(extrapolation_value)
         return dataset
 
